@@ -175,7 +175,7 @@ impl Run {
         self.keys.iter().position(|x| x == k).map(|p| p as i64).unwrap_or(-2)
     }
 
-    fn doc(&self, id: u64, t: &str, k: i64, j: u64) -> TantivyDocument {
+    fn doc(&self, id: u64, t: &str, k: i64, k2: i64, j: u64) -> TantivyDocument {
         let mut d = TantivyDocument::default();
         if let Some((obj, _)) = js_of(id, j) {
             d.add_object(self.f.js, obj);
@@ -184,7 +184,11 @@ impl Run {
         d.add_text(self.f.t, t);
         d.add_text(self.f.u, format!("u{id}"));
         d.add_text(self.f.body, body_of(id).2);
-        if k >= 0 {
+        // (k2 >= 0: a second value for the sort field - the column of the segment becomes multi-valued)
+        for k in [k, k2] {
+            if k < 0 {
+                continue;
+            }
             match &self.keys[k as usize] {
                 Key::I(v) => d.add_i64(self.f.k, *v),
                 Key::U(v) => d.add_u64(self.f.k, *v),
@@ -398,13 +402,15 @@ impl Run {
             "add" => {
                 let (id, t, k) = (op["id"].as_u64().unwrap(), op["t"].as_str().unwrap().to_string(), op["k"].as_i64().unwrap_or(-1));
                 let j = op["j"].as_u64().unwrap_or_else(|| default_j(id));
-                let d = self.doc(id, &t, k, j);
+                let k2 = if k >= 0 { op["k2"].as_i64().unwrap_or(-1) } else { -1 };
+                let d = self.doc(id, &t, k, k2, j);
                 let (nb, tf, body) = body_of(id);
                 let toks: Vec<&str> = body.split(' ').collect();
                 let js = js_of(id, j).map(|x| x.1);
                 let raw = if k >= 0 { json!(self.raws[k as usize]) } else { json!("missing") };
                 match self.writer.as_ref().unwrap().add_document(d) {
-                    Ok(o) => json!({"ev":"add","ok":true,"id":id,"t":t,"v":k,"raw":raw,"nb":nb,"tf":tf,"toks":toks,"js":js,"opstamp":o}),
+                    Ok(o) => json!({"ev":"add","ok":true,"id":id,"t":t,"v":k,"raw":raw,"nb":nb,"tf":tf,"toks":toks,"js":js,"opstamp":o,
+                                    "v2":if k2 >= 0 { json!(k2) } else { Value::Null },"raw2":if k2 >= 0 { json!(self.raws[k2 as usize]) } else { Value::Null }}),
                     Err(e) => json!({"ev":"add","ok":false,"id":id,"err":errclass(&e)}),
                 }
             }
